@@ -83,20 +83,26 @@ type c08FlapPlan struct {
 type c08Plan struct {
 	// Slots: max_accepted_htlcs of the channel (0 = the fixture's 50).
 	SlotsAB, SlotsBC int
-	Flaps            []c08FlapPlan
-	Seed             [32]byte
-	SideSat          int64
-	Pays             []c08PayPlan
-	Burst            bool
-	Restarts         int
-	RestartAt        []int
-	Cuts             []*c08CutPlan
+	// SlotPrefix: completed payments in the opposite direction before the
+	// slots batch; SlotQuiet: no restart, flap or cut after the refusal.
+	SlotPrefix int
+	SlotN      int
+	SlotQuiet  bool
+	Flaps      []c08FlapPlan
+	Seed       [32]byte
+	SideSat    int64
+	Pays       []c08PayPlan
+	Burst      bool
+	Restarts   int
+	RestartAt  []int
+	Cuts       []*c08CutPlan
 }
 
 func (p *c08Plan) String() string {
 	var b strings.Builder
-	fmt.Fprintf(&b, "side=%dsat restarts=%d at=%v burst=%v slots=%d/%d\n",
-		p.SideSat, p.Restarts, p.RestartAt, p.Burst, p.SlotsAB, p.SlotsBC)
+	fmt.Fprintf(&b, "side=%dsat restarts=%d at=%v burst=%v slots=%d/%d "+
+		"prefix=%d quiet=%v\n", p.SideSat, p.Restarts, p.RestartAt,
+		p.Burst, p.SlotsAB, p.SlotsBC, p.SlotPrefix, p.SlotQuiet)
 	for i, x := range p.Pays {
 		fmt.Fprintf(&b, "  pay%d dir=%d %s amt=%d kind=%s feeDelta=%d "+
 			"cltvDefect=%d launch=(%d,%d) resolve=(%d,%d) early=%v\n",
@@ -184,7 +190,20 @@ func c08DrawPlan(t *rapid.T) *c08Plan {
 	slots := rapid.IntRange(0, 4).Draw(t, "slots") == 0
 	slotDir := rapid.IntRange(0, 1).Draw(t, "slotDir")
 	slotN := rapid.IntRange(1, 2).Draw(t, "slotN")
+	// Half of them are preceded by completed payments in the OPPOSITE
+	// direction (one after the other), as many as the index the first /
+	// second refused add will get on the shared channel: incoming and
+	// outgoing circuit keys share one key space. A third run the refusal
+	// with no restart, flap or cut afterwards.
+	slotPre := rapid.SampledFrom([]int{0, 0, 1, 2}).Draw(t, "slotPrefix")
+	slotQuiet := rapid.IntRange(0, 2).Draw(t, "slotQuiet") == 0
+	slotPrefix := 0
 	if slots {
+		p.SlotN = slotN
+		if slotPre > 0 {
+			slotPrefix = slotN + slotPre
+		}
+		p.SlotPrefix, p.SlotQuiet = slotPrefix, slotQuiet
 		burst = false
 		if slotDir == 0 {
 			p.SlotsBC = slotN
@@ -200,6 +219,9 @@ func c08DrawPlan(t *rapid.T) *c08Plan {
 		p.Restarts = rapid.SampledFrom([]int{1, 2, 2}).Draw(
 			t, "slotRestarts",
 		)
+		if slotQuiet {
+			p.Restarts = 0
+		}
 	}
 	if burst {
 		p.Restarts = 2
@@ -210,6 +232,10 @@ func c08DrawPlan(t *rapid.T) *c08Plan {
 			2, 3, 4, 5, 6, 7, 8, 10, 12, 14, 16, 18, 22, 28, 40,
 		}).Draw(t, "restartAt"))
 	}
+	if slotPrefix > 0 && p.Restarts > 0 {
+		// after the (idle-sequenced) prefix and batch: when idle
+		p.RestartAt[0] = 5000
+	}
 
 	nPay := rapid.SampledFrom([]int{
 		1, 2, 2, 3, 3, 3, 4, 4, 4, 5, 5, 6, 7, 8,
@@ -219,8 +245,8 @@ func c08DrawPlan(t *rapid.T) *c08Plan {
 	if burst && nPay < 3 {
 		nPay = 3
 	}
-	if slots && nPay < slotN+2 {
-		nPay = slotN + 2
+	if slots && nPay < slotPrefix+slotN+2 {
+		nPay = slotPrefix + slotN + 2
 	}
 	for i := 0; i < nPay; i++ {
 		var x c08PayPlan
@@ -259,11 +285,31 @@ func c08DrawPlan(t *rapid.T) *c08Plan {
 			0, 5, 10, 20, 40,
 		}).Draw(t, l+"resAt")
 		x.CancelEarly = rapid.IntRange(0, 4).Draw(t, l+"early") == 0
-		if slots && i < slotN+2 {
+		switch {
+		case slots && i < slotPrefix:
+			// opposite-direction prefix, one payment at a time
+			// (trigger never reached => launched when idle),
+			// answered by the remote peer.
+			x.Dir, x.Phase, x.At = 1-slotDir, 0, 1000+i
+			x.Class, x.Amt = "mid", lnwire.MilliSatoshi(6_100_000+i)
+			x.FeeDelta, x.CltvDefect = 0, 0
+			if x.Kind == c08KindHoldSettle || x.Kind == c08KindHoldCancel {
+				x.Kind = c08KindValid
+			}
+
+		case slots && slotPrefix > 0 && i >= slotPrefix+slotN+2:
+			// everything else after the batch
+			x.At = 3000 + i
+		}
+		if j := i - slotPrefix; slots && j >= 0 && j < slotN+2 {
+			i := j
 			// slot holders first, then the adds that find no slot;
 			// all of them reach the forwarder in one batch and are
 			// acceptable to the switch.
 			x.Dir, x.Phase, x.At = slotDir, 0, 0
+			if slotPrefix > 0 {
+				x.At = 2000
+			}
 			x.Class, x.Amt = "mid", lnwire.MilliSatoshi(6_000_000+i)
 			x.FeeDelta, x.CltvDefect = 0, 0
 			if i < slotN {
@@ -356,6 +402,25 @@ func c08DrawPlan(t *rapid.T) *c08Plan {
 		}
 	}
 
+	if slots && (slotQuiet || slotPrefix > 0) {
+		// quiet: nothing may heal or disturb the state after the
+		// refusal; prefix: phase 0 is sequenced by idleness, faults
+		// start with the first restart.
+		var cuts []*c08CutPlan
+		for _, c := range p.Cuts {
+			if !slotQuiet && c.Phase > 0 {
+				cuts = append(cuts, c)
+			}
+		}
+		var flaps []c08FlapPlan
+		for _, f := range p.Flaps {
+			if !slotQuiet && f.Phase > 0 {
+				flaps = append(flaps, f)
+			}
+		}
+		p.Cuts, p.Flaps = cuts, flaps
+	}
+
 	return p
 }
 
@@ -439,7 +504,9 @@ type c08Run struct {
 	nudges       int
 	flaps        int
 	flapHits     int
-	rescued      bool
+	// link flaps since the switches were (re)started
+	flapsSinceRestart int
+	rescued           bool
 
 	startBal [4]lnwire.MilliSatoshi // a2b, b2a, b2c, c2b local balances
 }
@@ -713,6 +780,7 @@ func (r *c08Run) flap(ch int) bool {
 		r.flapHits++
 	}
 	r.flaps++
+	r.flapsSinceRestart++
 
 	// Connection dies: nothing is delivered any more, both links go
 	// away, and whatever still sits in the two servers' queues is taken
@@ -1039,21 +1107,34 @@ func (r *c08Run) stuckForward(minSilence time.Duration) string {
 		return ""
 	}
 	type half struct {
-		in   CircuitKey
-		hash [32]byte
+		in     CircuitKey
+		hash   [32]byte
+		loaded bool
 	}
 	var halves []half
 	cm.mtx.RLock()
 	for k, c := range cm.pending {
-		if k.ChanID != hop.Source && !c.HasKeystone() && c.LoadedFromDisk {
-			halves = append(halves, half{k, c.PaymentHash})
+		if k.ChanID == hop.Source || c.HasKeystone() {
+			continue
 		}
+		// A half-open circuit that was NOT loaded from disk normally
+		// has its packet in the outgoing link's mailbox. It is only
+		// considered when no link flapped during this switch lifetime
+		// (a flap that interrupts Switch.ForwardPackets leaves the
+		// same picture, see notes 5b) and the mailbox does not hold
+		// the packet.
+		if !c.LoadedFromDisk && r.flapsSinceRestart > 0 {
+			continue
+		}
+		halves = append(halves, half{k, c.PaymentHash, c.LoadedFromDisk})
 	}
 	cm.mtx.RUnlock()
 	for _, h := range halves {
 		name, link := "bob first", r.n.firstBobChannelLink
+		other := r.n.secondBobChannelLink
 		if h.in.ChanID == r.n.secondBobChannelLink.ShortChanID() {
 			name, link = "bob second", r.n.secondBobChannelLink
+			other = r.n.firstBobChannelLink
 		}
 		r.mu.Lock()
 		resumed := r.resumed[name]
@@ -1069,6 +1150,26 @@ func (r *c08Run) stuckForward(minSilence time.Duration) string {
 		}
 		if !active {
 			continue
+		}
+		if !h.loaded {
+			mb, ok := other.mailBox.(*memoryMailBox)
+			if !ok {
+				continue
+			}
+			mb.pktMtx.Lock()
+			_, queued := mb.addIndex[h.in]
+			mb.pktMtx.Unlock()
+			if queued || !other.EligibleToForward() {
+				continue
+			}
+
+			return fmt.Sprintf("incoming HTLC %v (%x) at bob is left "+
+				"dangling: its circuit is half-open, the add is in "+
+				"no mailbox (the outgoing link gave it up or never "+
+				"got it), no answer went upstream, no link flapped "+
+				"since the switch started, nothing is pending and "+
+				"the wire has been silent for %v", h.in, h.hash[:4],
+				since.Round(time.Second))
 		}
 
 		return fmt.Sprintf("incoming HTLC %v (%x) at bob is left "+
@@ -1109,6 +1210,7 @@ func (r *c08Run) run() []string {
 
 	for ph := 0; ; ph++ {
 		r.phase = ph
+		r.notifier.setPhase(ph)
 		r.tap.newPhase(ph)
 		if !r.startNetwork(chans) {
 			return nil
@@ -1123,6 +1225,7 @@ func (r *c08Run) run() []string {
 			break
 		}
 		r.waitCount(r.plan.RestartAt[ph])
+		r.flapsSinceRestart = 0
 		r.stopNetwork()
 		var err error
 		if chans, err = r.restore(); err != nil {
@@ -1206,9 +1309,11 @@ func (r *c08Run) run() []string {
 		// rescue restart - unless the structural precondition of the
 		// dangling-forward verdict holds, which a restart could mask.
 		if _, since := r.tap.snapshot(); !ok && since >= r.nudgeIdle &&
-			r.nudges >= 3 && !r.rescued && r.stuckForward(0) == "" {
+			r.nudges >= 3 && !r.rescued && r.flapsSinceRestart > 0 &&
+			r.stuckForward(0) == "" {
 
 			r.rescued = true
+			r.flapsSinceRestart = 0
 			r.stopNetwork()
 			chans, err := r.restore()
 			if err != nil {
@@ -1219,6 +1324,7 @@ func (r *c08Run) run() []string {
 				r.shiftExposed = true
 			}
 			r.phase++
+			r.notifier.setPhase(r.phase)
 			r.tap.newPhase(r.phase)
 			if !r.startNetwork(chans) {
 				return nil
@@ -1948,7 +2054,29 @@ func c08RunCase(t *testing.T, plan *c08Plan) *c08Result {
 	if plan.SlotsAB+plan.SlotsBC > 0 {
 		lab = append(lab, "slots_template")
 	}
+	if plan.SlotPrefix > 0 {
+		lab = append(lab, "slots_opposite_prefix_planned")
+		done := 0
+		for _, p := range r.pays[:plan.SlotPrefix] {
+			if o, _ := p.get(); o == c08Success || o == c08Failed {
+				done++
+			}
+		}
+		if done > plan.SlotN && r.notifier.count() > 0 {
+			lab = append(lab, "opposite_prefix>=refused_index")
+		}
+	}
+	if plan.SlotQuiet && plan.SlotsAB+plan.SlotsBC > 0 {
+		lab = append(lab, "slots_quiet_planned")
+	}
 	if n := r.notifier.count(); n > 0 {
+		if r.notifier.last() == r.phase {
+			lab = append(lab, "refusal_without_later_restart")
+			if r.flaps == 0 {
+				lab = append(lab,
+					"refusal_without_later_restart_or_flap")
+			}
+		}
 		lab = append(lab, "outgoing_link_refused_add")
 		if len(r.restartHits)+r.flaps > 0 {
 			lab = append(lab, "outgoing_link_refused_add+restart_or_flap")
